@@ -42,7 +42,10 @@ def init_ops(cfg):
     if cfg.tag == "partial":
         # a new file on the FIRST disk recorded but not synced (range-limited sync): its stripes hold an unsynced block on the lower
         # disk and synced blocks of 'five' on the higher disk
-        ops += [("write", "d1", "newf", 3000, 0), ("cmd", "sync", "-B", "1")]
+        ops += [("write", "d1", "newf", 3000, 0), ("cmd", "sync", "-B", "1"),
+                # ... and a synced multi-block file legitimately REWRITTEN since (new bytes, new time-stamp, not synced): none of its
+                # blocks is a silent error, whatever block of it a scrub meets first
+                ("write", "d1", "a", 2500, 3)]
     if cfg.tag == "hole":
         ops += [("emptydisk", "d2"), ("cmd", "sync", "-E"), ("dropdisk", "d2"), ("write", "d3", "late", 2500, 0), ("cmd", "sync")]
     return ops
@@ -62,17 +65,35 @@ SHAPES_DATA = ["flip0", "fliplast", "whole", "zero"]
 SHAPES_PARITY = ["flip0", "whole"]
 
 
-def damage_list(cfg, c):
+def changed_since_sync(L, c):
+    """(disk, sub) of recorded files whose size or time-stamp on disk differs from the record (changed by the user, not damage)"""
+    out = set()
+    for d in c.disks.values():
+        for f in d.files:
+            try:
+                st = os.lstat(os.path.join(L.p(d.name.decode()).encode(), f.sub))
+            except OSError:
+                continue
+            ns = f.mtime_nsec if f.mtime_nsec is not None else st.st_mtime_ns % 10**9
+            if st.st_size != f.size or st.st_mtime_ns != f.mtime_sec * 10**9 + ns:
+                out.add((d.name, f.sub))
+    return out
+
+
+def damage_list(cfg, c, changed=()):
     """every (kind, where, pos) single damage"""
     out = []
     for d in c.disks.values():
         for f in d.files:
+            if (d.name, f.sub) in changed:
+                continue            # a file the user rewrote is not a synced file any more
             for i, (st, pos, h) in enumerate(f.blocks):
                 if st == C.BLK:     # the statement speaks of synced blocks
                     out.append(("data", d.name.decode(), pos))
     used = F.used_stripes(c)
     unsynced = {pos for d in c.disks.values() for f in d.files for st, pos, h in f.blocks if st != C.BLK}
     unsynced |= {pos for d in c.disks.values() for pos in d.deleted}
+    unsynced |= {pos for d in c.disks.values() for f in d.files if (d.name, f.sub) in changed for st, pos, h in f.blocks}
     for pos in sorted(used):
         if pos in unsynced:
             continue                # the parity of a stripe with pending blocks is not yet defined: nothing to detect there
@@ -143,7 +164,12 @@ def job(j):
     # so (an error that is neither silent nor marked); the statement is about the synced blocks and the fully synced stripes
     pending = {pos for d in c.disks.values() for f in d.files for st, pos, h in f.blocks if st != C.BLK}
     pending |= {pos for d in c.disks.values() for pos in d.deleted}
+    changed = changed_since_sync(L, c)
+    pending |= {pos for d in c.disks.values() for f in d.files if (d.name, f.sub) in changed for st, pos, h in f.blocks}
     got_par = {x for x in got_par if x[0] not in pending}
+    # the differences of a rewritten file are reported too (as file errors): not part of the judged set, but never a bad mark
+    chg_blocks = {(pos, d.name.decode()) for d in c.disks.values() for f in d.files if (d.name, f.sub) in changed for st, pos, h in f.blocks}
+    got_data = got_data - chg_blocks
     # coverage
     info = c.info
     stripes = {d[2] for d in dmgs}
@@ -224,7 +250,8 @@ def run(ctx):
             saved = L0.save()
             c = L0.content()
             cfgx = L0.cfg
-        dl = damage_list(cfgx, c)
+            changed0 = changed_since_sync(L0, c)
+        dl = damage_list(cfgx, c, changed0)
         jobs = []
         for cmdspec in COMMANDS:
             jobs.append((cfgx, saved, (), "whole", cmdspec, ctx.seed))      # undamaged
